@@ -125,6 +125,27 @@ def bounded(check, tier, seed):
                     case = dict(runs=[[t, a] for t, a in runs], columns=columns)
                     s.fail("C16.linesplit", case, d, replay={"kind": "suite", "module": "props.C16", "case": case})
     s.done()
+    # word-length family: the fit test and the chopping of long words depend on len(word) relative to the column limit, which the short
+    # exhaustive strings cannot reach (a non-first word of 2*columns characters followed by another word needs >= 3*columns+2 characters)
+    cmax = 6 if tier == "thorough" else 5
+    nwords = 4
+    s = Suite(check, "C16.word_lengths", f"every sequence of <= {nwords} words whose lengths are drawn from {{1, c-1, c, c+1, 2c-1, 2c, 2c+1, 3c}} for every "
+              f"column limit c in 1..{cmax}, words separated by one blank (and by a two-character whitespace run), first word red", bound=f"words<={nwords}, columns<={cmax}")
+    for columns in range(1, cmax + 1):
+        lens = sorted({x for x in (1, columns - 1, columns, columns + 1, 2 * columns - 1, 2 * columns, 2 * columns + 1, 3 * columns) if x >= 1})
+        for k in range(1, nwords + 1):
+            for combo in itertools.product(lens, repeat=k):
+                for sep in (" ", "\t "):
+                    if sep != " " and k > 3:
+                        continue
+                    words = ["abcdefghijklmnopqrstuvwxyz"[j % 26] * n for j, n in enumerate(combo)]
+                    runs = [(words[0], {"fg": 31})] + [(sep + w, {}) for w in words[1:]]
+                    s.case((columns, combo, sep))
+                    d = judge(build(runs), columns)
+                    if d:
+                        case = dict(runs=[[t, a] for t, a in runs], columns=columns)
+                        s.fail("C16.linesplit", case, d, replay={"kind": "suite", "module": "props.C16", "case": case})
+    s.done()
 
 
 def run(check, tier, seed):
